@@ -502,6 +502,7 @@ func handleFields(c *core.Ctx) tFields {
 	}
 	if f.tearing != nil {
 		reset := c.MustFn("pkg/f1/testing", "T.Reset")
+		var ons []string
 		for _, fn := range c.AllFuncs {
 			if core.RelPkg(fn) != "pkg/f1/testing" {
 				continue
@@ -518,9 +519,29 @@ func handleFields(c *core.Ctx) tFields {
 				if fn == reset {
 					f.tearingOff = k.Value.String()
 				} else if an.Outermost(fn).Signature.Recv() != nil {
-					f.tearingOn = k.Value.String()
+					ons = append(ons, k.Value.String())
 				}
 			})
+		}
+		if f.tearingOff == "" {
+			// Reset does not store the marker (C07.R4 reports that): "off" is what a fresh handle starts with, the zero
+			// value of the marker's type
+			if b, ok := f.tearing.Type().Underlying().(*types.Basic); ok && b.Kind() == types.Bool {
+				f.tearingOff = "false"
+			} else {
+				f.tearingOff = "0"
+			}
+		}
+		// "on" is the value stored outside Reset that differs from Reset's; a store of Reset's own value elsewhere
+		// (the marker switched off again after a cleanup) is not a second meaning of the marker — C06.R5 judges it
+		for _, v := range ons {
+			if v == f.tearingOff {
+				continue
+			}
+			if f.tearingOn != "" && f.tearingOn != v {
+				panic(core.AnchorError{What: "testing.T's tearing-down marker takes more than two values"})
+			}
+			f.tearingOn = v
 		}
 		if f.tearingOff == "" || f.tearingOn == "" || f.tearingOff == f.tearingOn {
 			panic(core.AnchorError{What: "the two values of testing.T's tearing-down marker (stored by Reset and by the teardown)"})
